@@ -55,6 +55,9 @@ class LocalityObserver:
         if name == "_Delete":
             self.on_delete(ev, before, after)
             return
+        if name in ("MeasureFock", "MeasureHomodyne", "MeasureHeterodyne") and before.n == after.n:
+            self.on_measure(ev, before, after)
+            return
         if name not in UNITARY and name not in CHANNELS and name not in PREPS:
             return
         n = after.n
@@ -158,6 +161,102 @@ class LocalityObserver:
                         rep.violation(locus, "prep-still-correlated", "%s on %s: state is not a product of target and rest "
                                       "(max deviation %.3e, %s)" % (name, tg, dd, lab), self.case, detail)
 
+
+    def on_measure(self, ev, before, after):
+        """A measurement changes the other modes only by the conditional update that belongs to the outcome it
+        *reported*, and leaves the measured modes in vacuum."""
+        rep = self.rep
+        lab = self.lab()
+        name = ev["name"]
+        tg = list(ev["modes"])
+        n = after.n
+        sp = [m for m in range(n) if m not in tg]
+        locus = "%s.%s" % (self.conf["backend"], name)
+        detail = {"event": ev["seq"], "modes": tg, "conf": self.conf}
+        try:
+            vals = np.asarray(ev["result"]).reshape(-1)
+        except Exception:
+            return
+        if len(vals) != len(tg):
+            return  # several shots: no single conditional state
+        sel = getattr(ev["op"], "select", None) is not None
+        if after.kind == "fock":
+            if name != "MeasureFock":
+                return
+            outcome = [int(round(float(np.real(v)))) for v in vals]
+            if any(o < 0 or o >= before.D for o in outcome):
+                return
+            # <outcome| rho |outcome> on the measured modes, computed from the snapshot taken before the measurement
+            sl = [slice(None)] * (2 * n)
+            for m, o in zip(tg, outcome):
+                sl[2 * m] = o
+                sl[2 * m + 1] = o
+            rest = before.dm[tuple(sl)]
+            k = len(sp)
+            if k:
+                perm = [2 * i for i in range(k)] + [2 * i + 1 for i in range(k)]
+                M = np.transpose(rest, perm).reshape(before.D ** k, before.D ** k)
+                prob = float(np.real(np.trace(M)))
+            else:
+                M, prob = None, float(np.real(rest))
+            if prob < 1e-7:
+                rep.observe("measure-probe.skipped:outcome-probability-below-1e-7")
+                return
+            rep.monitor("measurement:" + lab)
+            rep.seen("measurement-probes", "%s%s@%s modes=%s" % (name, ":select" if sel else "", lab, tuple(tg)))
+            if len(tg) >= 2 and tg != sorted(tg):
+                rep.observe("measure-probe.non-ascending-modes")
+            if len(set(outcome)) > 1:
+                rep.observe("measure-probe.unequal-outcomes")
+            tr = max(after.trace, 1e-300)
+            for m in tg:
+                v0 = float(np.real(after.reduced_matrix([m])[0, 0])) / tr
+                if abs(v0 - 1) > 1e-8:
+                    rep.violation(locus, "measured-mode-not-vacuum", "after %s on %s (outcome %s) mode %d has vacuum population %.9f (%s)" % (
+                        name, tg, outcome, m, v0, lab), self.case, detail)
+                    return
+            if k:
+                got = after.reduced_matrix(sp) / tr
+                d = float(np.max(np.abs(got - M / prob)))
+                rep.dev("%s.measurement-rest" % lab, d, 1e-8)
+                if d > 1e-8:
+                    self.case["_nt"] = self.case.get("_nt", 0) + 1
+                    rep.violation(locus, "rest-not-conditioned-on-reported-outcome", "%s on modes %s reported %s, but the other modes %s are "
+                                  "not in the state <outcome|rho|outcome>/p of the state before the measurement (max deviation %.3e, "
+                                  "outcome probability %.3e, %s)" % (name, tg, outcome, sp, d, prob, lab), self.case, detail)
+                    return
+                self.case["_nt"] = self.case.get("_nt", 0) + 1
+            return
+        # ---- gaussian / single-component bosonic: general-dyne conditioning of the snapshot taken before -------------
+        if len(tg) != 1 or name == "MeasureFock":
+            return
+        if after.kind == "bosonic" and (len(before.w) != 1 or len(after.w) != 1):
+            return
+        g = rg.GState(n)
+        g.mu, g.V = np.real(before.mu).astype(float).copy(), np.real(before.V).astype(float).copy()
+        s = np.sqrt(self.hbar / 2.0)
+        try:
+            if name == "MeasureHomodyne":
+                phi = float(np.real(np.asarray(ev["p"][0]).reshape(-1)[0]))
+                g.condition_homodyne(tg[0], phi, float(np.real(vals[0])) / s, eps=0.0002)
+            else:
+                g.condition_heterodyne(tg[0], complex(vals[0]))
+        except Exception as e:
+            rep.error("on_measure.reference", e)
+            return
+        rep.monitor("measurement:" + lab)
+        rep.seen("measurement-probes", "%s%s@%s modes=%s" % (name, ":select" if sel else "", lab, tuple(tg)))
+        d = max(float(np.max(np.abs(np.real(after.mu) - g.mu))), float(np.max(np.abs(np.real(after.V) - g.V))))
+        scale = 1 + float(np.max(np.abs(before.V))) + float(np.max(np.abs(before.mu)))
+        # the simulators model homodyne detection as general-dyne detection with covariance diag(eps^2, 1/eps^2), eps = 2e-4,
+        # and condition on the whole sampled pair: the discarded conjugate sample (|p| < 8/eps) moves the rest by < 8*eps
+        tol = 2e-6 if (sel or name != "MeasureHomodyne") else 8 * 0.0002
+        rep.dev("%s.measurement-rest/tolerance" % lab, d / scale / tol, 1.0)
+        self.case["_nt"] = self.case.get("_nt", 0) + 1
+        if d > tol * scale:
+            rep.violation(locus, "rest-not-conditioned-on-reported-outcome", "%s on mode %s reported %s, but the state afterwards differs "
+                          "from the conditional state of the snapshot taken before the measurement by %.3e (%s)" % (
+                              name, tg, np.round(vals, 6).tolist() if not np.iscomplexobj(vals) else str(vals), d, lab), self.case, detail)
 
     def on_delete(self, ev, before, after):
         """Mode deletion (first deletion of a run: labels == positions) leaves the rest as it was."""
